@@ -45,6 +45,13 @@ class Log:
         me = self.sched.me()
         return me.name if me is not None else 'main'
 
+    def sync(self, label):
+        """a scheduling point of its own for an event a thread performs on shared state (otherwise the code between two
+        lock operations would be atomic for the scheduler and races inside it could never be explored).  Call it BEFORE
+        the effect is performed and logged (or AFTER both, for effects observed through a callback)."""
+        if self.sched.managed():
+            self.sched.yield_((label,))
+
     def add(self, e, t=None, **kw):
         tf = self.sched.now if t is None else t
         ev = {'e': e, 't': self.us(tf), 'tf': tf, 'who': kw.pop('who', None) or self.who(), 'seq': len(self.items)}
@@ -114,6 +121,7 @@ class Device:
 
     # ---- host side entry points -------------------------------------------------------
     def connect(self):
+        self.sched.yield_(('connect',))
         i = self.nconnect
         self.nconnect += 1
         cid = len(self.chans)
@@ -150,6 +158,7 @@ class Device:
             self.log.add('devclose', t=t, who='device', conn=ch.cid)
 
     def on_send(self, ch, data):
+        self.sched.yield_(('send', ch.cid))
         n = self.nsend
         self.nsend += 1
         now = self.sched.now
@@ -205,6 +214,7 @@ class FakeConn(AsynConn):
 
     def disconnect(self):
         ch = self.connection
+        self.dev.sched.yield_(('hclose',))
         if ch is not None and ch.open:
             ch.open = False
             try:
@@ -236,6 +246,7 @@ class FakeConn(AsynConn):
         sched = self.dev.sched
         log = self.dev.log
         end = sched.now + self.timeout
+        sched.yield_(('recv', ch.cid))
         while True:
             now = sched.now
             if ch.items and ch.items[0][0] <= now:
